@@ -33,6 +33,9 @@ type quotaSpec struct {
 	// mixed hierarchy: the internal limit under the concurrency quota is a (practically unlimited)
 	// fixed-window quota and the flow's limiter points at it; only the parent bounds the in-flight number
 	ChildFixed bool `json:"child_is_fixed_window,omitempty"`
+	// ExpireOmitted: request_expiration_sec is left out of every quota of the file (the default, 60 s, applies;
+	// ExpireS is then 60)
+	ExpireOmitted bool `json:"request_expiration_omitted,omitempty"`
 	// Grand: a third level - root quota qg (max 1000, never the bottleneck) above qp above qc, limiter on qc
 	Grand bool `json:"grandparent,omitempty"`
 }
@@ -57,6 +60,20 @@ type replay struct {
 var t0 = time.Date(2026, 3, 1, 12, 0, 0, 250_000_000, time.UTC)
 
 func quotaYAML(q quotaSpec) string {
+	y := quotaYAML0(q)
+	if !q.ExpireOmitted {
+		return y
+	}
+	var kept []string
+	for _, l := range strings.Split(y, "\n") {
+		if !strings.Contains(l, "request_expiration_sec") {
+			kept = append(kept, l)
+		}
+	}
+	return strings.Join(kept, "\n")
+}
+
+func quotaYAML0(q quotaSpec) string {
 	var sb strings.Builder
 	if q.ParentMax > 0 && q.Grand {
 		fmt.Fprintf(&sb, "quotas:\n  - id: qg\n    filter:\n      url: a.com/*\n    strategy:\n      concurrent:\n        max_request_count: 1000\n        request_expiration_sec: %d\n        gc_interval_sec: %d\n", q.ExpireS, q.GCS)
@@ -172,6 +189,9 @@ func genQuota(r *sim.Rand) quotaSpec {
 	}
 	if q.ParentMax > 0 && q.LimiterOn == "qc" && !q.ChildFixed && !q.SecondLimiter && r.Chance(1, 2) {
 		q.Grand = true
+	}
+	if r.Chance(1, 6) {
+		q.ExpireOmitted, q.ExpireS = true, 60
 	}
 	return q
 }
